@@ -139,10 +139,10 @@ func c05Round(w *core.W, rr dns.RR, origin string, cls string, wit map[string]an
 	// the text of the re-read record is stable
 	if t2 := rr2.String(); t2 != text {
 		rr3, err := dns.NewRR(t2)
-		if err == nil && rr3 != nil {
-			if g3, err := packRR(rr3); err == nil && !bytes.Equal(g3, want) {
-				w.Violation("C05/second-roundtrip-differs/"+tn+cls, "a record read from text prints to text that reads back differently", wit)
-			}
+		if err != nil || rr3 == nil {
+			w.Violation("C05/second-roundtrip-error/"+tn+cls, fmt.Sprintf("the text printed by a record that was itself read from text is not accepted: %v\n text: %s", err, cutS(t2)), wit)
+		} else if g3, err := packRR(rr3); err == nil && !bytes.Equal(g3, want) {
+			w.Violation("C05/second-roundtrip-differs/"+tn+cls, "a record read from text prints to text that reads back differently", wit)
 		}
 	}
 	w.Count("roundtrips", 1)
@@ -766,6 +766,26 @@ func c05Generic(w *core.W, j int) {
 	g.NoHuge = true
 	g.Plain = true
 	g.MaxOpaque = 64
+	// records of types without a mnemonic (RFC 3597 s.5: only the generic form exists), from the wire
+	// and from text
+	for _, t := range []uint16{11, 22, 40, 103, 127, 262, 4711, 32767, 65280, 65534} {
+		u := model.Unknown(t)
+		r := g.Rec(u)
+		r.Owner, r.Class, r.TTL = model.Name{[]byte("unk"), []byte("example")}, 1, uint32(1+g.R.IntN(86400))
+		if k := g.R.IntN(4); k == 0 {
+			r.Vals[0] = []byte{}
+		}
+		r.Fixup()
+		w.Cover("type", "TYPE"+fmt.Sprint(t))
+		c05Both(w, r, "/unknown-type")
+		rd, _ := r.Rdata()
+		text := fmt.Sprintf("%s %d IN TYPE%d \\# %d %s", r.Owner.Pres(), r.TTL, t, len(rd), hex.EncodeToString(rd))
+		if rr, err := dns.NewRR(text); err == nil && rr != nil {
+			c05Round(w, rr, "text", "/unknown-type", map[string]any{"type": u.Name, "source_text": text})
+		} else {
+			w.Violation("C05/generic-form-rejected/unknown-type/TYPEnnn", fmt.Sprintf("%v\n text: %s", err, text), map[string]any{"text": text})
+		}
+	}
 	for k := 0; k < 8; k++ {
 		l := ls[(j*8+k)%len(ls)]
 		r := c05Base(g, l)
